@@ -32,6 +32,104 @@ def json_doc(n, bad_at):
     return ("[\n" + ",\n".join(parts) + "\n]\n").encode()
 
 
+def run_special(ctx, argv, stdin, mode, env, timeout):
+    """stdout of the child is /dev/full ("devfull") or a pipe whose read end is closed after the first line
+    ("closed": default SIGPIPE disposition, "closed-ign": SIGPIPE ignored in the child before exec).
+    Returns (status, first bytes of stdout, stderr); status is negative when killed by a signal."""
+    import resource, signal, subprocess
+
+    def pre():
+        resource.setrlimit(resource.RLIMIT_AS, (8 << 30, 8 << 30))
+        signal.signal(signal.SIGPIPE, signal.SIG_IGN if mode == "closed-ign" else signal.SIG_DFL)
+    e = dict(os.environ); e["MLRRC"] = "__none__"; e.update(env or {})
+    try:
+        with tempfile.TemporaryFile() as fe, tempfile.TemporaryFile() as fi:
+            fi.write(stdin); fi.seek(0)
+            if mode == "devfull":
+                with open("/dev/full", "wb") as fo:
+                    p = subprocess.Popen([ctx.mlr()] + list(argv), stdin=fi, stdout=fo, stderr=fe, env=e, preexec_fn=pre)
+                first = b""
+            else:
+                r, w = os.pipe()
+                p = subprocess.Popen([ctx.mlr()] + list(argv), stdin=fi, stdout=w, stderr=fe, env=e, preexec_fn=pre)
+                os.close(w)
+                with os.fdopen(r, "rb") as f:
+                    first = f.readline()
+            try:
+                p.wait(timeout=timeout); st = p.returncode
+            except subprocess.TimeoutExpired:
+                p.kill(); p.wait(); st = "hang"
+            fe.seek(0)
+            return st, first, fe.read(1_000_000)
+    except Exception as ex:  # pragma: no cover
+        return "harness-error", b"", repr(ex).encode()
+
+
+def stdout_fault_plans(ctx, d):
+    """faults on standard output itself and on pipes; tuples carry a 6th element: the stdout mode"""
+    thorough = ctx.tier != "quick"
+    plans = []
+    # a. stdout is /dev/full: below one bufio buffer (the error surfaces only at Stream's final Flush), around the
+    #    4096-byte buffer, around 64 KiB, and large; flush-per-record and batch size 1
+    sizes = [1, 5, 250, 330, 4000] + ([5500, 40000] if thorough else [])
+    combos = []
+    for fmt in ("dkvp", "json", "csv", "pprint", "xtab") + (("nidx", "tsv", "markdown", "jsonl") if thorough else ()):
+        for n in sizes:
+            for extra in ([], ["--fflush"], ["--records-per-batch", "1"], ["--records-per-batch", "500", "--ofmt", "%.4f"]):
+                if n > 5000 and "1" in extra:
+                    continue
+                combos.append((fmt, n, extra))
+    if not thorough:
+        core = [c for c in combos if c[1] in (1, 330) and c[2] == []]
+        rest = [c for c in combos if c not in core]
+        ctx.rng.shuffle(rest)
+        combos = core + rest[:14]
+    for fmt, n, extra in combos:
+        plans.append((f"stdout-dev-full:{fmt}:n{n}:{'+'.join(extra) or 'plain'}", "stdout-write-failure", ["--o" + fmt] + extra + ["put", "$y = $x * 1.5"],
+                      recs(n), "fail", "devfull"))
+    for k, (argv, inp) in enumerate([(["-n", "put", 'end{print "x"}'], b""), (["-n", "put", 'end{emit {"a":1}}'], b""), (["-n", "put", 'end{dump {"a":1}}'], b""),
+                                     (["put", "-q", "print $a"], recs(10)), (["put", "-q", "tee > stdout, $*"], recs(10)), (["put", "-q", "emit > stdout, $*"], recs(10)),
+                                     (["head", "-n", "1"], recs(4000)), (["seqgen", "--stop", "10"], b""), (["--icsv", "--opprint", "cat"], b"a,b\n1,2\n"),
+                                     (["tac"], recs(3)), (["--ojson", "count"], recs(3))]):
+        plans.append((f"stdout-dev-full-misc#{k}", "stdout-write-failure", argv, inp, "fail", "devfull"))
+    # b. the consumer of stdout goes away after the first line (`mlr ... | head -1`): the process must not report success
+    big = recs(60000)
+    for fmt, extra, mode in [("dkvp", [], "closed"), ("json", [], "closed-ign")] + ([("csv", ["--records-per-batch", "1"], "closed"), ("pprint", [], "closed"),
+                                                                                    ("dkvp", ["--fflush"], "closed-ign"), ("xtab", [], "closed-ign")] if thorough else []):
+        plans.append((f"stdout-closed-early:{fmt}:{mode}:{'+'.join(extra) or 'plain'}", "stdout-closed-early", ["--o" + fmt] + extra + ["cat"], big, "fail-or-signal", mode))
+    # c. redirected targets that cannot be opened, the failing statement reached first at record 1 / middle / last / in the end block
+    N = 40
+    red = []
+    for stmt in ('print > "/nonexistent-dir/x", $a', 'tee > "/nonexistent-dir/x", $*', 'emit > "/nonexistent-dir/x", $*', 'dump > "/nonexistent-dir/x", $*',
+                 'print >> "/nonexistent-dir/x", $a', 'printn > "/nonexistent-dir/" . $a, $x'):
+        for pos in (1, N // 2, N):
+            for b in ("1", "3", "500"):
+                red.append((f"redirect-open-failure@{pos}/b{b}:{stmt.split()[0]}{stmt.split()[1]}", "write-failure:redirect-open", ["--records-per-batch", b, "put", "-q", "if (NR==%d) {%s}" % (pos, stmt)], recs(N), "fail", None))
+    for stmt in ('print > "/nonexistent-dir/x", "e"', 'emit > "/nonexistent-dir/x", {"a":1}', 'dump > "/nonexistent-dir/x", {"a":1}', 'emit > "/dev/full", {"a":1}', 'print > "/dev/full", "e"'):
+        red.append((f"redirect-failure-in-end-block:{stmt.split()[0]}:{stmt.split()[2]}", "write-failure:redirect-open", ["put", "-q", "end {%s}" % stmt], recs(N), "fail", None))
+    for b in ("1", "500"):
+        red.append((f"tee-append-nonexistent-dir/b{b}", "write-failure:tee", ["--records-per-batch", b, "tee", "-a", "/nonexistent-dir/x"], recs(N), "fail", None))
+        red.append((f"split-n-nonexistent-dir/b{b}", "write-failure:split", ["--records-per-batch", b, "split", "-n", "2", "--prefix", "/nonexistent-dir/p"], recs(N), "fail", None))
+        red.append((f"tee-dev-full-small/b{b}", "write-failure:tee", ["--records-per-batch", b, "--ojson", "tee", "/dev/full"], recs(5), "fail", None))
+    if not thorough:
+        fixed = [p for p in red if "@" not in p[0]]
+        posd = [p for p in red if "@" in p[0]]
+        ctx.rng.shuffle(posd)
+        red = fixed + posd[:12]
+    plans += red
+    # d. pipes whose consumer exits without reading: more than the 64 KiB pipe capacity is written, so the writes must
+    #    fail (EPIPE); the run has to end, non-zero, with a diagnostic.  (A consumer that reads everything and then exits
+    #    non-zero is NOT a failed write and is not demanded; see c17.findings.md.)
+    bigp = recs(30000)
+    pipes = [("print", ["put", "-q", 'print | "false", $*'])]
+    if thorough:
+        pipes += [("tee-redirect", ["put", "-q", 'tee | "false", $*']), ("emit-redirect", ["put", "-q", 'emit | "false", $*']),
+                  ("dump-redirect", ["put", "-q", 'dump | "false", $*']), ("tee-verb", ["tee", "-p", "false"]), ("print-exit3", ["put", "-q", 'print | "exit 3", $*'])]
+    for nm, argv in pipes:
+        plans.append((f"pipe-consumer-exits:{nm}", "pipe-consumer-exits", argv, bigp, "fail", None))
+    return plans
+
+
 def fault_plans(ctx, d):
     """yield (name, class, argv, stdin, expect) ; expect = 'fail' (non-zero + diagnostic) or ('ok', nlines)"""
     N = 40
@@ -133,6 +231,7 @@ def run(ctx):
     d = tempfile.mkdtemp(prefix="c17.", dir=str(CACHE))
     traces, tmeta = [], []
     found = False
+    harness_errs = 0
     try:
         plans = fault_plans(ctx, d)
         if ctx.tier == "quick":
@@ -140,40 +239,60 @@ def run(ctx):
             pos = [p for p in plans if "@" in p[0]]
             ctx.rng.shuffle(pos)
             plans = keep + pos[:260]
+        plans = [tuple(p) + (None,) for p in plans] + stdout_fault_plans(ctx, d)
+        only = os.environ.get("VERIF_C17_ONLY")
+        if only:   # debugging aid: run the plans whose name contains the given substring
+            plans = [p for p in plans if only in p[0]]
         from concurrent.futures import ThreadPoolExecutor
         pool = ThreadPoolExecutor(max_workers=8)
 
         def one(i, plan):
-            name, cls, argv, stdin, expect = plan
+            name, cls, argv, stdin, expect, mode = plan
             env = {}
             sched = None
             if i % 2 == 1:
                 sched = 1000 + i
                 env["MLR_VERIF_SCHED"] = str(sched)
             tf = None
-            if i % 4 == 0:
+            if i % 4 == 0 and not mode and cls != "pipe-consumer-exits":   # runs killed by a signal or hung leave truncated traces
                 tf = os.path.join(d, "trace.%d" % i)
                 env["MLR_VERIF_TRACE"] = tf
-            st, out, err = mlr_run(ctx, argv, stdin, timeout=30, env=env)
-            if st == "hang":
-                env.pop("MLR_VERIF_TRACE", None)
-                st, out, err = mlr_run(ctx, argv, stdin, timeout=150, env=env, max_out=20_000_000)
-                tf = None
+            if mode:
+                st, out, err = run_special(ctx, argv, stdin, mode, env, 60)
+                if st == "hang":
+                    env.pop("MLR_VERIF_TRACE", None)
+                    st, out, err = run_special(ctx, argv, stdin, mode, env, 300)
+                    tf = None
+            else:
+                st, out, err = mlr_run(ctx, argv, stdin, timeout=30, env=env)
+                if st == "hang":
+                    env.pop("MLR_VERIF_TRACE", None)
+                    st, out, err = mlr_run(ctx, argv, stdin, timeout=150, env=env, max_out=20_000_000)
+                    tf = None
             tr = None
             if tf and os.path.exists(tf):
                 tr = open(tf).read(); os.unlink(tf)
             return st, out, err, tr, sched
         futs = [pool.submit(one, i, p) for i, p in enumerate(plans)]
         for i, plan in enumerate(plans):
-            name, cls, argv, stdin, expect = plan
+            name, cls, argv, stdin, expect, mode = plan
             st, out, err, tr, sched = futs[i].result()
+            if st == "harness-error":   # the binary could not be started (e.g. build cache evicted mid-run): not an observation of mlr
+                if not harness_errs:
+                    ctx.violation({"broken": "harness-error: could not run the binary", "plan": name, "detail": err[-300:].decode("latin1")}, found_input=False)
+                harness_errs += 1
+                continue
             ctx.count((name, sched)); ctx.dist(cls.split(":")[0])
             kind = classify_run(st, err)
             if i < 3 or i % 97 == 0:
                 ctx.sample({"plan": name, "argv": argv, "status": st, "stderr_head": err[:160].decode("latin1")})
             bad = None
             if kind == "hang":
-                bad = "run does not terminate (confirmed with a 150 s timeout)"
+                bad = "run does not terminate (confirmed with a long timeout: 150 s, 300 s for stdout faults)"
+            elif expect == "fail-or-signal" and kind != "panic":
+                # killed by SIGPIPE (Go raises it for EPIPE on fd 1 whatever the inherited disposition) or any non-zero exit
+                if st == 0:
+                    bad = "exit status 0 although the consumer of standard output went away before the output was written"
             elif kind == "panic":
                 bad = "panic / internal error instead of an mlr: diagnostic"
             elif expect == "fail" and st == 0:
@@ -191,7 +310,7 @@ def run(ctx):
             if bad:
                 found = True
                 ctx.violation({"class": cls, "plan": name, "what": bad, "argv": argv, "stdin_head": stdin[:200].decode("latin1"), "stdin_len": len(stdin),
-                               "status": st, "sched_seed": sched, "stdout_lines": out.count(b"\n"), "stderr_tail": err[-400:].decode("latin1")})
+                               "status": st, "sched_seed": sched, "stdout_mode": mode, "stdout_lines": out.count(b"\n"), "stderr_tail": err[-400:].decode("latin1")})
             if tr:
                 t = trace_term(tr)
                 if t is not None:
